@@ -380,30 +380,68 @@ theorem readAttribute_spec (tag : Tag) (st : St) :
     | ok buf =>
       have hbl := hsk.2 buf s1 hs
       rw [bind_ok _ _ _ _ _ hs]
-      cases hpn : parseAttrName buf with
-      | none =>
-        simp only [hpn]
-        exact ⟨⟨by simp [isFuel, Xmp.fail], h1.2⟩, by intro x st' h; simp [Xmp.fail] at h⟩
-      | some pd =>
-        obtain ⟨p, d⟩ := pd
-        simp only [hpn]
-        obtain ⟨hd2, hdl⟩ := parseAttrName_spec buf p d hpn
-        have hd : (Xmp.discard d s1) = (.ok (), { s1 with rest := s1.rest.drop d }) := rfl
-        rw [bind_ok _ _ _ _ _ hd]
-        have hR := (OK.attrRest tag p).at { s1 with rest := s1.rest.drop d }
-        unfold OKat at hR
-        have hdl2 : ({ s1 with rest := s1.rest.drop d } : St).rest.length + d = s1.rest.length := by
+      have h1b' : s1.rest.length ≤ st.rest.length := h1.2
+      split
+      · -- '>' after white space: the tag ends here; one byte is consumed
+        next hgt =>
+        have hb1 : 1 ≤ buf.length := by
+          have := congrArg List.length (eq_of_beq hgt)
+          simp only [List.length_take, List.length_cons, List.length_nil] at this
+          omega
+        refine ⟨⟨by simp [isFuel, Xmp.setA, Xmp.discard, bind, Pure.pure], ?_⟩, ?_⟩
+        · show ({ ({ s1 with a := false } : St) with rest := s1.rest.drop 1 } : St).rest.length ≤ st.rest.length
           simp only [List.length_drop]; omega
-        have h1b : s1.rest.length ≤ st.rest.length := h1.2
-        have hle1 : ({ s1 with rest := s1.rest.drop d } : St).rest.length ≤ st.rest.length := by omega
-        have hlt1 : ({ s1 with rest := s1.rest.drop d } : St).rest.length < st.rest.length := by omega
-        refine ⟨⟨hR.1, Nat.le_trans hR.2 hle1⟩, ?_⟩
-        intro x st' h
-        have h2 : st'.rest.length ≤ ({ s1 with rest := s1.rest.drop d } : St).rest.length := by
-          have := hR.2
-          rw [h] at this
-          exact this
-        exact Nat.lt_of_le_of_lt h2 hlt1
+        · intro x st' h
+          have : st' = ({ ({ s1 with a := false } : St) with rest := s1.rest.drop 1 } : St) := by
+            have h' : ((Except.ok ({ pt := 1, parent := tag.self, self := (0, 0), val := [] }, tag) : Except XErr (Tok × Tag)),
+                ({ ({ s1 with a := false } : St) with rest := s1.rest.drop 1 } : St)) = (.ok x, st') := h
+            simp only [Prod.mk.injEq] at h'
+            exact h'.2.symm
+          rw [this]
+          simp only [List.length_drop]; omega
+      · split
+        · next hsg =>
+          have hb2 : 2 ≤ buf.length := by
+            have := congrArg List.length (eq_of_beq hsg)
+            simp only [List.length_take, List.length_cons, List.length_nil] at this
+            omega
+          refine ⟨⟨by simp [isFuel, Xmp.setA, Xmp.discard, bind, Pure.pure], ?_⟩, ?_⟩
+          · show ({ ({ s1 with a := false } : St) with rest := s1.rest.drop 2 } : St).rest.length ≤ st.rest.length
+            simp only [List.length_drop]; omega
+          · intro x st' h
+            have : st' = ({ ({ s1 with a := false } : St) with rest := s1.rest.drop 2 } : St) := by
+              have h' : ((Except.ok ({ pt := 1, parent := tag.self, self := (0, 0), val := [] }, { tag with t := .solo }) : Except XErr (Tok × Tag)),
+                  ({ ({ s1 with a := false } : St) with rest := s1.rest.drop 2 } : St)) = (.ok x, st') := h
+              simp only [Prod.mk.injEq] at h'
+              exact h'.2.symm
+            rw [this]
+            simp only [List.length_drop]; omega
+        · skip
+          cases hpn : parseAttrName buf with
+          | none =>
+            simp only [hpn]
+            exact ⟨⟨by simp [isFuel, Xmp.fail], h1.2⟩, by intro x st' h; simp [Xmp.fail] at h⟩
+          | some pd =>
+            obtain ⟨p, d⟩ := pd
+            simp only [hpn]
+            obtain ⟨hd2, hdl⟩ := parseAttrName_spec buf p d hpn
+            have hd : (Xmp.discard d s1) = (.ok (), { s1 with rest := s1.rest.drop d }) := rfl
+            rw [bind_ok _ _ _ _ _ hd]
+            have hR := (OK.attrRest tag p).at { s1 with rest := s1.rest.drop d }
+            unfold OKat at hR
+            have hdl2 : ({ s1 with rest := s1.rest.drop d } : St).rest.length + d = s1.rest.length := by
+              simp only [List.length_drop]; omega
+            have h1b : s1.rest.length ≤ st.rest.length := h1.2
+            have hle1 : ({ s1 with rest := s1.rest.drop d } : St).rest.length ≤ st.rest.length := by omega
+            have hlt1 : ({ s1 with rest := s1.rest.drop d } : St).rest.length < st.rest.length := by omega
+            refine ⟨⟨hR.1, Nat.le_trans hR.2 hle1⟩, ?_⟩
+            intro x st' h
+            have h2 : st'.rest.length ≤ ({ s1 with rest := s1.rest.drop d } : St).rest.length := by
+              have := hR.2
+              rw [h] at this
+              exact this
+            exact Nat.lt_of_le_of_lt h2 hlt1
+
 
 end Imeta.Xmp
 
